@@ -13,6 +13,8 @@ import (
 	"errors"
 	"flag"
 	"fmt"
+	"net/http"
+	"net/http/httptest"
 	"os"
 	"path/filepath"
 	"sort"
@@ -21,10 +23,14 @@ import (
 
 	"github.com/apex/log"
 	"github.com/apex/log/handlers/discard"
+	"github.com/go-chi/jwtauth/v5"
 	"github.com/gofrs/uuid"
+	"github.com/lestrrat-go/jwx/jwa"
+	"github.com/lestrrat-go/jwx/jwt"
 
 	"github.com/Flowpack/prunner"
 	"github.com/Flowpack/prunner/definition"
+	"github.com/Flowpack/prunner/server"
 	"github.com/Flowpack/prunner/store"
 	"github.com/Flowpack/prunner/taskctl"
 
@@ -76,7 +82,11 @@ func (d DefSet) toDefs() *definition.PipelinesDef {
 	for _, p := range d.Pipes {
 		pd := definition.PipelineDef{Concurrency: p.Conc, QueueLimit: p.QLimit, StartDelay: time.Duration(p.Delay) * tick,
 			ContinueRunningTasksAfterFailure: p.Continue, RetentionPeriod: time.Duration(p.RetP) * tick, RetentionCount: p.RetC,
-			Env: map[string]string{"E": fmt.Sprint(p.Env)}, Tasks: map[string]definition.TaskDef{}, SourcePath: "gen"}
+			Tasks: map[string]definition.TaskDef{}, SourcePath: "gen"}
+		if p.Env != 0 {
+			// environment 0 is "no env section at all" (a nil map)
+			pd.Env = map[string]string{"E": fmt.Sprint(p.Env)}
+		}
 		if p.Replace {
 			pd.QueueStrategy = definition.QueueStrategyReplace
 		}
@@ -315,6 +325,8 @@ type Snap struct {
 	Jobs  []JobSnap        `json:"jobs"`
 	Wait  map[string][]int `json:"wait"`
 	Pipes []PipeSnap       `json:"pipes"`
+	// HTTP: how the HTTP API (GET /pipelines/jobs, GET /job/detail) differs from what the runner reports ("" = agrees)
+	HTTP string `json:"http,omitempty"`
 	Req   bool             `json:"req"`
 	Logs  []int            `json:"logs"`
 	Store []PJobSnap       `json:"store"` // content of the store (only after events that write or load it), nil otherwise
@@ -345,6 +357,7 @@ type hist struct {
 	armed     map[int]bool // timer created and neither fired nor seen stopped
 	alive     map[int]bool // scheduler goroutine seen and not yet returned
 	pipesSeen map[int]bool
+	srv       http.Handler
 	out       *os.File
 	prof      string
 	steps     int
@@ -532,6 +545,7 @@ func (x *hist) snapshot() Snap {
 		}
 		s.Times[fmt.Sprint(jh.Idx)] = ts
 	})
+	s.HTTP = x.httpDiff(&s)
 	return s
 }
 
@@ -911,6 +925,7 @@ func (x *hist) newRunner(defs *definition.PipelinesDef) error {
 	}
 	r.ShutdownPollInterval = time.Millisecond
 	x.r = r
+	x.srv = server.NewServer(r, x.ost, func(h http.Handler) http.Handler { return h }, jwtauth.New("HS256", []byte(httpSecret), nil), false)
 	// wait until the persist loop goroutine (started with an already canceled context) has ended
 	_ = x.h.Quiesce(2 * time.Second)
 	return nil
@@ -1347,4 +1362,144 @@ func main() {
 			fmt.Fprintf(os.Stderr, "history %d: %s\n", i, fail)
 		}
 	}
+}
+
+// ---------- the HTTP view ----------
+
+const httpSecret = "0123456789abcdef0123456789abcdef"
+
+var httpToken = func() string {
+	tok := jwt.New()
+	_ = tok.Set("sub", "sysrun")
+	b, err := jwt.Sign(tok, jwa.HS256, []byte(httpSecret))
+	if err != nil {
+		panic(err)
+	}
+	return string(b)
+}()
+
+type httpTask struct {
+	Name     string     `json:"name"`
+	Status   string     `json:"status"`
+	Start    *time.Time `json:"start"`
+	End      *time.Time `json:"end"`
+	Skipped  bool       `json:"skipped"`
+	ExitCode int        `json:"exitCode"`
+	Errored  bool       `json:"errored"`
+	Error    *string    `json:"error"`
+}
+
+type httpJob struct {
+	ID        string     `json:"id"`
+	Pipeline  string     `json:"pipeline"`
+	Tasks     []httpTask `json:"tasks"`
+	Completed bool       `json:"completed"`
+	Canceled  bool       `json:"canceled"`
+	Errored   bool       `json:"errored"`
+	Start     *time.Time `json:"start"`
+	End       *time.Time `json:"end"`
+	LastError *string    `json:"lastError"`
+	User      string     `json:"user"`
+}
+
+type httpPipe struct {
+	Pipeline    string `json:"pipeline"`
+	Schedulable bool   `json:"schedulable"`
+	Running     bool   `json:"running"`
+}
+
+func (x *hist) httpGet(path string, v interface{}) (int, error) {
+	req := httptest.NewRequest("GET", path, nil)
+	req.Header.Set("Authorization", "Bearer "+httpToken)
+	rec := httptest.NewRecorder()
+	x.srv.ServeHTTP(rec, req)
+	if rec.Code != 200 {
+		return rec.Code, nil
+	}
+	return rec.Code, json.Unmarshal(rec.Body.Bytes(), v)
+}
+
+func cmpJob(js *JobSnap, hj *httpJob) string {
+	if hj.Completed != js.Completed || hj.Canceled != js.Canceled || (hj.Start != nil) != js.Start || (hj.End != nil) != js.End ||
+		(hj.LastError != nil) != (js.LastErr != "none") || num(hj.Pipeline) != js.Pipe || num("u"+strings.TrimPrefix(hj.User, "u")) != js.User {
+		return fmt.Sprintf("job %d: flags differ (http %+v)", js.ID, *hj)
+	}
+	errored := false
+	if len(hj.Tasks) != len(js.Tasks) {
+		return fmt.Sprintf("job %d: %d tasks over HTTP, %d in the runner", js.ID, len(hj.Tasks), len(js.Tasks))
+	}
+	for i, t := range js.Tasks {
+		ht := hj.Tasks[i]
+		if num(ht.Name) != t.Name || ht.Status != t.Status || (ht.Start != nil) != t.Start || (ht.End != nil) != t.End || ht.Skipped != t.Skipped ||
+			ht.ExitCode != t.Exit || ht.Errored != t.Errored || (ht.Error != nil) != (t.Err != "none") {
+			return fmt.Sprintf("job %d task %d: http %+v, runner %+v", js.ID, t.Name, ht, t)
+		}
+		errored = errored || t.Errored
+	}
+	if hj.Errored != errored {
+		return fmt.Sprintf("job %d: errored=%v over HTTP, but a task with an error: %v", js.ID, hj.Errored, errored)
+	}
+	return ""
+}
+
+// httpDiff compares GET /pipelines/jobs (and GET /job/detail of one job) with what the runner reports in the snapshot
+func (x *hist) httpDiff(s *Snap) string {
+	if x.srv == nil {
+		return ""
+	}
+	var resp struct {
+		Pipelines []httpPipe `json:"pipelines"`
+		Jobs      []httpJob  `json:"jobs"`
+	}
+	if code, err := x.httpGet("/pipelines/jobs", &resp); code != 200 || err != nil {
+		return fmt.Sprintf("GET /pipelines/jobs: %d %v", code, err)
+	}
+	byID := map[int]*httpJob{}
+	for i := range resp.Jobs {
+		if jh := x.h.ByUUID[resp.Jobs[i].ID]; jh != nil {
+			byID[jh.Idx] = &resp.Jobs[i]
+		} else {
+			return "GET /pipelines/jobs lists a job the harness does not know: " + resp.Jobs[i].ID
+		}
+	}
+	if len(byID) != len(s.Jobs) {
+		return fmt.Sprintf("%d jobs over HTTP, %d reported by the runner", len(byID), len(s.Jobs))
+	}
+	for i := range s.Jobs {
+		hj := byID[s.Jobs[i].ID]
+		if hj == nil {
+			return fmt.Sprintf("job %d is not listed over HTTP", s.Jobs[i].ID)
+		}
+		if d := cmpJob(&s.Jobs[i], hj); d != "" {
+			return d
+		}
+	}
+	hp := map[int]httpPipe{}
+	for _, p := range resp.Pipelines {
+		hp[num(p.Pipeline)] = p
+	}
+	if len(hp) != len(s.Pipes) {
+		return fmt.Sprintf("%d pipelines over HTTP, %d reported by the runner", len(hp), len(s.Pipes))
+	}
+	for _, p := range s.Pipes {
+		if q, ok := hp[p.P]; !ok || q.Schedulable != p.Schedulable || q.Running != p.Running {
+			return fmt.Sprintf("pipeline %d: http %+v, runner %+v", p.P, q, p)
+		}
+	}
+	// the detail view of the newest job
+	if n := len(s.Jobs); n > 0 {
+		js := &s.Jobs[n-1]
+		for uuid, jh := range x.h.ByUUID {
+			if jh.Idx == js.ID {
+				var hj httpJob
+				if code, err := x.httpGet("/job/detail?id="+uuid, &hj); code != 200 || err != nil {
+					return fmt.Sprintf("GET /job/detail of job %d: %d %v", js.ID, code, err)
+				}
+				if d := cmpJob(js, &hj); d != "" {
+					return "detail: " + d
+				}
+			}
+		}
+	}
+	return ""
 }
